@@ -11,8 +11,12 @@ import (
 	"math/big"
 	"strings"
 
+	"github.com/TarsCloud/TarsGo/tars/tools/tars2go/ast"
+	"github.com/TarsCloud/TarsGo/tars/tools/tars2go/gencode"
 	"github.com/TarsCloud/TarsGo/tars/tools/tars2go/lexer"
+	"github.com/TarsCloud/TarsGo/tars/tools/tars2go/options"
 	"github.com/TarsCloud/TarsGo/tars/tools/tars2go/token"
+	"github.com/TarsCloud/TarsGo/tars/tools/tars2go/utils"
 )
 
 func c16CoqBytes(s string) string {
@@ -114,6 +118,38 @@ func init() {
 			fams2 = append(fams2, fmt.Sprintf("(%s, %s, [\n  %s ])", c16CoqBytes(f.pre), c16CoqBytes(f.suf), strings.Join(rows, ";\n  ")))
 		}
 		fmt.Printf("Definition c16_probe_more : list (list N * list N * list (N * list N * Z)) := [\n%s ].\n", strings.Join(fams2, ";\n"))
+		// utils.UpperFirstLetter on every ASCII first byte (one-byte string, and followed by 'x')
+		var up1, up2 []string
+		for b := 0; b < 128; b++ {
+			up1 = append(up1, c16CoqBytes(utils.UpperFirstLetter(string([]byte{byte(b)}))))
+			up2 = append(up2, c16CoqBytes(utils.UpperFirstLetter(string([]byte{byte(b), 'x'}))))
+		}
+		fmt.Printf("Definition c16_upper_first_1 : list (list N) := [%s].\nDefinition c16_upper_first_2 : list (list N) := [%s].\nDefinition c16_upper_first_empty : list N := %s.\n",
+			strings.Join(up1, "; "), strings.Join(up2, "; "), c16CoqBytes(utils.UpperFirstLetter("")))
+		// the generator's Go type text and zero text per scalar type (gen_go.go genType / typeDef through the verif hook)
+		var gts, tds []string
+		for i := token.DummyTypeBegin + 1; i < token.DummyTypeEnd; i++ {
+			for _, u := range []bool{false, true} {
+				t, ok := gencode.VerifGenType(&options.Options{}, &ast.VarType{Type: i, Unsigned: u, TypeK: &ast.VarType{Type: token.TInt}, TypeV: &ast.VarType{Type: token.TString}, TypeL: 3})
+				if !ok {
+					t = ""
+				}
+				gts = append(gts, fmt.Sprintf("(%d, %v, %s, %v)", i, u, c16CoqBytes(t), ok))
+			}
+			d, ok := gencode.VerifTypeDef(&options.Options{}, &ast.StructMember{Type: &ast.VarType{Type: i}})
+			if !ok {
+				d = ""
+			}
+			tds = append(tds, fmt.Sprintf("(%d, %s, %v)", i, c16CoqBytes(d), ok))
+		}
+		fmt.Printf("Definition c16_gentype : list (N * bool * list N * bool) := [\n  %s ].\n", strings.Join(gts, ";\n  "))
+		fmt.Printf("Definition c16_typedef : list (N * list N * bool) := [\n  %s ].\n", strings.Join(tds, ";\n  "))
+		nm := func(s string) string {
+			t, _ := gencode.VerifGenType(&options.Options{}, &ast.VarType{Type: token.Name, TypeSt: s})
+			return c16CoqBytes(t)
+		}
+		fmt.Printf("Definition c16_gentype_names : list (list N * list N) := [(%s, %s); (%s, %s); (%s, %s); (%s, %s)].\n",
+			c16CoqBytes("st1"), nm("st1"), c16CoqBytes("St1"), nm("St1"), c16CoqBytes("modA::en2"), nm("modA::en2"), c16CoqBytes("M::T"), nm("M::T"))
 		// integer literals: the largest / smallest decimal literal the lexer accepts (binary search between 0 and 2^80)
 		search := func(neg bool) *big.Int {
 			lo, hi := big.NewInt(0), new(big.Int).Lsh(big.NewInt(1), 80) // lo accepted, hi rejected
